@@ -2,3 +2,5 @@ import Sgz.Model.Arith
 import Sgz.Model.Geo
 import Sgz.Model.Loader
 import Sgz.Model.Reader
+import Sgz.Model.Version
+import Sgz.Props.C03
